@@ -3,7 +3,7 @@
 COMMON_ASSUMPTIONS = [
     "verdict covers only the executions produced by the stated generators and bounds (runtime monitoring, not proof)",
     "the harness' own reference MQTT 5 codec (harness/src/refcodec.rs, written from the OASIS text, self-tested on every run) is correct",
-    "the transport mocks obey the AsyncRead/AsyncWrite contracts (wake on every state change, never Ok(0) for a non-empty buffer except at EOF)",
+    "the transport mocks obey the AsyncRead/AsyncWrite contracts (wake on every state change, Ok(0) for a non-empty buffer only at EOF of the reader, or from the writer where a check injects a full sink as a fault)",
     "futures::select! may process a ready inbound packet and a ready request in either order; only per-source orders are asserted",
 ]
 
@@ -229,3 +229,33 @@ MANIFEST_TEXT["C16"] = {
   "text": "Every script produced identical observations under wake-only, sweep-after-every-event and spurious-poll executors and under all transport plans; no sweep at wake-only quiescence had an effect.",
   "note": "Trusted: executor and mocks. Scripts apply one stimulus at a time so that the outcome at each settle point is unique for a correct client (confluence); races are the business of C05/C13.",
   "technique": RM + "differential trace comparison across executor polling disciplines (wake-only vs sweeps vs spurious polls) and transport plans"}
+
+
+# ---------------------------------------------------------------------------------------------
+# Scenario families added in later rounds: each must have been exercised, or the run is INCONCLUSIVE (a scenario that
+# silently does nothing - see DESIGN section 12, item 12 - must not pass for coverage). Minima are well below what a quick
+# run observes; the thorough tier observes at least as much.
+EXTRA_MIN = {
+    "C01": {"resumed_sessions_with_options": 100, "retransmitted_packets_decoded": 300},
+    "C02": {"follow_up_packets": 500, "packets_delivered_in_pieces": 1000},
+    "C03": {"second_connection_cases": 100},
+    "C04": {"history_state_cases": 500, "history_state_sequences": 400, "zero_length_write_faults": 60},
+    "C05": {"wide_cases": 5, "resumed_connection_cases": 20, "walks_with_reconnection": 50},
+    "C06": {"publishes_with_options": 20, "walks_with_reconnection": 40},
+    "C07": {"ack_write_failure_cases": 6, "expired_session_cases": 10, "rolling_subscription_cases": 6, "many_subscription_cases": 2, "walks_with_reconnection": 60, "stream_items_checked": 100000, "inbound_publishes_with_varied_size": 1000},
+    "C08": {"large_packet_backlog_cases": 40, "wide_cases": 6},
+    "C09": {"wide_cases": 6, "ack_write_failure_cases": 10, "walks_with_reconnection": 40, "sequences_with_resumption": 10000},
+    "C10": {"resumption_quota_cases": 100, "stray_ack_quota_cases": 20},
+    "C11": {"subscription_id_boundary_cases": 5, "reconnection_cases": 20},
+    "C12": {"second_connection_cases": 200, "sessions_established_through_authorize": 400},
+    "C13": {"second_connection_cases": 150, "refused_request_cases": 8, "reconnections": 250},
+    "C14": {"wide_cases": 6, "stream_items_checked": 10000},
+    "C15": {"identifier_reuse_cases": 60, "cancel_then_resume_cases": 60, "wide_cases": 6, "late_acks_for_cancelled_ops": 100000},
+    "C16": {"burst_cases": 20, "variant_runs": 3000},
+    "C17": {"connections_cut_by_write_error": 5000, "wide_cases": 8, "resumptions_with_connack_receive_maximum": 1500},
+}
+for _cid, _m in EXTRA_MIN.items():
+    for _tier in ("quick", "thorough"):
+        CHECKS[_cid]["min_observed"].setdefault(_tier, {})
+        for _k, _v in _m.items():
+            CHECKS[_cid]["min_observed"][_tier].setdefault(_k, _v)
